@@ -24,9 +24,12 @@
 (*   "nostart"   delta does not move start                                     *)
 (*   "firstonly" a measurement is applied to the first pipeline only           *)
 (*   "nofinal"   periodic Shutdown skips the final collection                  *)
+(*   "stopaterr" instrument resolution stops at the first reader that reports  *)
+(*               an error: readers registered after it are never wired         *)
 EXTENDS MetricSumContract, Integers
 
-CONSTANTS RD,        \* reader name -> [temp, kind]
+CONSTANTS RD,        \* reader name -> [temp, kind, wired]; wired = FALSE: instrument resolution fails for this reader
+                     \* (resolver.Aggregators joins the error and carries on: the other readers are served)
           POrder,    \* sequence of reader names: order of the pipelines in instrument.measures
           Streams,   \* sequence of stream keys (one instrument/attribute set each)
           Plan,      \* recorder -> sequence of measurement ids <<key, i>>
@@ -86,32 +89,39 @@ Go(x, l) == pc' = [pc EXCEPT ![x] = l]
 Obs(e) == LET r == Step(mon, e) IN mon' = r[1] /\ bad' = bad \cup {v.kind : v \in r[2]}
 Quiet == UNCHANGED <<mon, bad>>
 Cur(g) == Plan[g][ridx[g]]
-NP == IF Variant = "firstonly" THEN 1 ELSE Len(POrder)
+(* the pipelines an instrument's measures fan out to, in registration order *)
+FirstBad == IF \E p \in 1..Len(POrder) : ~RD[POrder[p]].wired
+              THEN CHOOSE p \in 1..Len(POrder) : ~RD[POrder[p]].wired /\ \A q \in 1..(p - 1) : RD[POrder[q]].wired
+              ELSE Len(POrder) + 1
+Pipes == IF Variant = "stopaterr" THEN SubSeq(POrder, 1, FirstBad - 1)
+         ELSE SelectSeq(POrder, LAMBDA r : RD[r].wired)
+NP == IF Variant = "firstonly" THEN 1 ELSE Len(Pipes)
 
 (* ------------------------------------------------------------ recorders *)
 (* lock+add on pipeline rp[g]; the critical section is left by RUnlock (on the real code the exemplar *)
 (* filter runs between the two, which is where the harness can hold the goroutine)                    *)
-LockAdd(g, p) == LET r == POrder[p]  s == SIdx(Key(Cur(g))) IN
+LockAdd(g, p) == LET r == Pipes[p]  s == SIdx(Key(Cur(g))) IN
   /\ vlock[r][s] = "none"
   /\ vlock' = [vlock EXCEPT ![r][s] = g]
   /\ val' = [val EXCEPT ![r][s] = @ \cup {Cur(g)}]
-CanLock(g, p) == vlock[POrder[p]][SIdx(Key(Cur(g)))] = "none"
+CanLock(g, p) == vlock[Pipes[p]][SIdx(Key(Cur(g)))] = "none"
 
 RCall(g) == /\ pc[g] = "idle" /\ ridx[g] <= Len(Plan[g])
             /\ Obs([ev |-> "Call", op |-> "Add", id |-> Cur(g)])
-            /\ IF Eager /\ CanLock(g, 1)
+            /\ IF NP = 0 THEN Go(g, "ret") /\ UNCHANGED <<val, vlock>>      \* wired to no reader at all
+               ELSE IF Eager /\ CanLock(g, 1)
                  THEN LockAdd(g, 1) /\ Go(g, "held")
                  ELSE Go(g, "lock") /\ UNCHANGED <<val, vlock>>
             /\ UNCHANGED <<start, clk, plock, shut, cancelled, ticks, serving, ridx, rp, ck, crd, cs, buf, biv, pend, err>>
 RLock(g) == /\ pc[g] = "lock" /\ LockAdd(g, rp[g]) /\ Go(g, "held") /\ Quiet
             /\ UNCHANGED <<start, clk, plock, shut, cancelled, ticks, serving, ridx, rp, ck, crd, cs, buf, biv, pend, err>>
 RUnlock(g) == /\ pc[g] = "held"
-              /\ LET r == POrder[rp[g]]  s == SIdx(Key(Cur(g)))  un == [vlock EXCEPT ![r][s] = "none"] IN
+              /\ LET r == Pipes[rp[g]]  s == SIdx(Key(Cur(g)))  un == [vlock EXCEPT ![r][s] = "none"] IN
                  IF rp[g] = NP
                    THEN vlock' = un /\ Go(g, "ret") /\ UNCHANGED <<val, rp>>
                    ELSE /\ rp' = [rp EXCEPT ![g] = @ + 1]
                         /\ IF Eager /\ CanLock(g, rp[g] + 1)
-                             THEN LET r2 == POrder[rp[g] + 1] IN
+                             THEN LET r2 == Pipes[rp[g] + 1] IN
                                   /\ vlock' = [un EXCEPT ![r2][s] = g]
                                   /\ val' = [val EXCEPT ![r2][s] = @ \cup {Cur(g)}]
                                   /\ Go(g, "held")
@@ -293,9 +303,10 @@ LocksOK == /\ \A r \in Readers : \A s \in 1..NS : vlock[r][s] \in Recs \cup {"no
 Applied(g, p) == {Plan[g][i] : i \in 1..(ridx[g] - 1)}
                  \cup (IF ridx[g] <= Len(Plan[g]) /\ (rp[g] > p \/ (rp[g] = p /\ pc[g] \in {"held", "ret"}) \/ pc[g] = "ret")
                          THEN {Cur(g)} ELSE {})
-PIdx(r) == CHOOSE p \in 1..Len(POrder) : POrder[p] = r
+InPipes(r) == \E p \in 1..Len(Pipes) : Pipes[p] = r
+PIdx(r) == CHOOSE p \in 1..Len(Pipes) : Pipes[p] = r
 Conserved ==
-  \A r \in Readers : RD[r].temp = "delta" /\ PIdx(r) <= NP =>
+  \A r \in Readers : RD[r].temp = "delta" /\ InPipes(r) /\ PIdx(r) <= NP =>
     LET inmap == UNION {val[r][s] : s \in 1..NS}
         inbuf == UNION {buf[x] : x \in {y \in Collecting : crd[y] = r /\ pc[y] \in (IF y \in Cols THEN {"comp", "ret"} ELSE {"comp", "export"})}}
     IN /\ (UNION {Applied(g, PIdx(r)) : g \in Recs}) = inmap \cup inbuf \cup mon.covered[r]
